@@ -26,6 +26,11 @@ What is extracted (whitelist templates; anything unexpected raises TemplateMisma
    a private `default_rng(<literal seed>)`; MeshRegion.mesh must not call `apply_transform`.
 5. *Checker*: WeightedAcceptanceChecker.checkRequirementsInner iterates `self.sortedRequirements()` and
    returns at the first rejected requirement; sortedRequirements = filter active, sort, pop trailing optional.
+6. *Dependency segments*: the operands of the `+` chain assigned to `Scenario.dependencies`, each resolved to
+   its role (instances / params / reqDeps / behaviors) whatever the names of the locals; *compile sources*: the
+   places where PendingRequirement.compile adds a dependency, in source order, each resolved to its role
+   (bindings / cells, both filtered by needsSampling; objects if `CanSee`; ego).  The Lean model of the
+   construction of the tuple (Model/DepOrder.lean) is parametric in both orders.
 """
 import ast
 
@@ -310,11 +315,160 @@ def order_sites(local=False):
     flat(dep)
     # `namespace` iterates over the values of behaviorNamespaces: module __dict__s (insertion ordered)
     tr = Tracker(sinit, params={k: up(v) for k, v in passed.items()}, opaque={"namespace.values()": True})
-    add("scenario.instances", tr, "self._instances")
-    add("scenario.paramDeps", tr, "paramDeps")
-    add("scenario.behaviorDeps", tr, "behaviorDeps")
+    roles = segment_roles(sinit, terms)
+    term_of = {r: _strip_tuple(t) for r, t in zip(roles, terms)}  # the names of the locals are irrelevant
+    add("scenario.instances", tr, term_of["instances"])
+    add("scenario.paramDeps", tr, term_of["params"])
+    add("scenario.behaviorDeps", tr, term_of["behaviors"])
     add("scenario.dependencies", tr, dep)
-    return sites, [_src(t) for t in terms]
+    return sites, [_src(t) for t in terms], roles
+
+
+# --------------------------------------------------------------------------- 6. segments and compile sources
+def _strip_tuple(e):
+    while isinstance(e, ast.Call) and isinstance(e.func, ast.Name) and e.func.id in ("tuple", "list") and len(e.args) == 1 \
+            and not e.keywords:
+        e = e.args[0]
+    return e
+
+
+def _assignments(fn, key):
+    return [n.value for n in ast.walk(fn) if isinstance(n, ast.Assign) and any(_key(t) == key for t in n.targets)]
+
+
+def _is_samplable_test(test, var):
+    return (isinstance(test, ast.Call) and is_name(test.func, "isinstance") and len(test.args) == 2
+            and is_name(test.args[0], var) and is_name(test.args[1], "Samplable"))
+
+
+def segment_roles(sinit, terms):
+    """role of each operand of `self.dependencies = a + b + ...` (names of locals are irrelevant)"""
+    params = [a.arg for a in sinit.args.args]
+    roles = []
+    for t in terms:
+        e = _strip_tuple(t)
+        k = _key(e)
+        expect(k is not None, f"Scenario.__init__: dependency segment `{_src(t)}` is not a plain container")
+        if k in params:
+            expect(k == "requirementDeps", f"Scenario.__init__: parameter `{k}` used directly as a dependency segment")
+            roles.append("reqDeps")
+            continue
+        vals = _assignments(sinit, k)
+        expect(len(vals) == 1, f"Scenario.__init__: `{k}` is assigned {len(vals)} times")
+        v = _strip_tuple(vals[0])
+        if is_name(v, "instances"):
+            roles.append("instances")
+        elif isinstance(v, (ast.GeneratorExp, ast.ListComp)):
+            expect(len(v.generators) == 1, f"Scenario.__init__: `{k}`: nested comprehension")
+            g = v.generators[0]
+            expect(_src(g.iter) == "self.params.values()" and isinstance(g.target, ast.Name) and is_name(v.elt, g.target.id)
+                   and len(g.ifs) == 1 and _is_samplable_test(g.ifs[0], g.target.id),
+                   f"Scenario.__init__: `{k}` is not the Samplable values of self.params")
+            pv = _assignments(sinit, "self.params")
+            expect(len(pv) == 1 and _src(pv[0]) == "dict(params)", "Scenario.__init__: self.params is not dict(params)")
+            roles.append("params")
+        elif isinstance(v, ast.List) and not v.elts:
+            # filled by append inside `for ns in self.behaviorNamespaces.values(): for value in ns.values(): if isinstance(..)`
+            hits = []
+            for outer in ast.walk(sinit):
+                if isinstance(outer, ast.For) and _src(outer.iter) == "self.behaviorNamespaces.values()" \
+                        and isinstance(outer.target, ast.Name):
+                    for inner in outer.body:
+                        if isinstance(inner, ast.For) and _src(inner.iter) == f"{outer.target.id}.values()" \
+                                and isinstance(inner.target, ast.Name) and len(inner.body) == 1 \
+                                and isinstance(inner.body[0], ast.If) and _is_samplable_test(inner.body[0].test, inner.target.id) \
+                                and not inner.body[0].orelse and len(inner.body[0].body) == 1 \
+                                and _src(inner.body[0].body[0]) == f"{k}.append({inner.target.id})":
+                            hits.append(inner)
+            muts = [n for n in ast.walk(sinit) if Tracker._mutates(n, k)]
+            expect(len(hits) == 1 and len(muts) == 1, f"Scenario.__init__: `{k}` is not the Samplable values of the behavior namespaces")
+            bn = _assignments(sinit, "self.behaviorNamespaces")
+            expect(len(bn) == 1 and is_name(bn[0], "behaviorNamespaces"), "Scenario.__init__: self.behaviorNamespaces changed")
+            roles.append("behaviors")
+        else:
+            raise TemplateMismatch(f"Scenario.__init__: cannot tell what dependency segment `{_src(t)}` holds")
+    expect(sorted(roles) == ["behaviors", "instances", "params", "reqDeps"],
+           f"Scenario.__init__: dependency segments are {roles}, expected each of instances/params/reqDeps/behaviors once")
+    return roles
+
+
+def compile_sources():
+    """the places where PendingRequirement.compile adds a dependency, in source order, as roles"""
+    _, rtree = load(REQ)
+    comp = get_def(rtree, "PendingRequirement.compile", REQ)
+    adder = acc = None
+    for node in comp.body:
+        if isinstance(node, ast.FunctionDef) and len(node.body) == 1 and isinstance(node.body[0], ast.Expr):
+            c = node.body[0].value
+            if (isinstance(c, ast.Call) and isinstance(c.func, ast.Attribute) and c.func.attr == "setdefault"
+                    and isinstance(c.func.value, ast.Name) and len(node.args.args) == 1 and len(c.args) == 2):
+                a = node.args.args[0].arg
+                if _src(c.args[0]) == f"id({a})" and is_name(c.args[1], a):
+                    adder, acc = node.name, c.func.value.id
+    expect(adder is not None, "PendingRequirement.compile: the identity-keyed `setdefault(id(value), value)` helper was not found")
+    init = [n.value for n in comp.body if isinstance(n, ast.Assign) and any(is_name(t, acc) for t in n.targets)]
+    expect(len(init) == 1 and isinstance(init[0], ast.Dict) and not init[0].keys, f"compile: `{acc}` is not initialised to an empty dict")
+    ctor = [n for n in ast.walk(comp) if isinstance(n, ast.Call) and is_name(n.func, "CompiledRequirement")]
+    expect(len(ctor) == 1 and len(ctor[0].args) == 4, "PendingRequirement.compile: CompiledRequirement(...) call changed")
+    dv = ctor[0].args[2]
+    if isinstance(dv, ast.Name):
+        vs = [n.value for n in comp.body if isinstance(n, ast.Assign) and any(is_name(t, dv.id) for t in n.targets)]
+        expect(len(vs) == 1, f"compile: `{dv.id}` assigned {len(vs)} times")
+        dv = vs[0]
+    expect(_src(_strip_tuple(dv)) == f"{acc}.values()", f"compile: the dependencies are not the values of `{acc}`")
+    # where the cell values and the merged bindings come from
+    cellvals = allb = None
+    for n in comp.body:
+        if isinstance(n, ast.Assign) and len(n.targets) == 1 and isinstance(n.targets[0], ast.Name):
+            v = n.value
+            if isinstance(v, ast.GeneratorExp) and len(v.generators) == 1 and _src(v.generators[0].iter) == "cells" \
+                    and isinstance(v.generators[0].target, ast.Tuple) and len(v.generators[0].target.elts) == 2 \
+                    and is_name(v.elt, getattr(v.generators[0].target.elts[1], "id", None)) and not v.generators[0].ifs:
+                cellvals = n.targets[0].id
+            if _src(v) == "dict(globalBindings)":
+                allb = n.targets[0].id
+    expect(cellvals is not None, "compile: generator over the values of `cells` not found")
+    expect(allb is not None and any(_src(n) == f"{allb}.update(closureBindings)" for n in comp.body),
+           "compile: allBindings = dict(globalBindings); allBindings.update(closureBindings) not found")
+    roles = []
+
+    def calls_adder(node):
+        return [c for c in ast.walk(node) if isinstance(c, ast.Call) and is_name(c.func, adder)]
+    for st in comp.body:
+        if isinstance(st, ast.FunctionDef) or not calls_adder(st):
+            continue
+        if isinstance(st, ast.For) and isinstance(st.target, ast.Name):
+            v = st.target.id
+            it = st.iter
+            parts = it.args if (isinstance(it, ast.Call) and _src(it.func) == "itertools.chain") else [it]
+            got = []
+            for part in parts:
+                if _src(part) == f"{allb}.values()":
+                    got.append("bindings")
+                elif is_name(part, cellvals):
+                    got.append("cells")
+                else:
+                    raise TemplateMismatch(f"compile: unknown source of dependencies `{_src(part)}`")
+            ifs = [b for b in st.body if isinstance(b, ast.If) and calls_adder(b)]
+            expect(len(ifs) == 1 and _src(ifs[0].test) == f"needsSampling({v})" and len(ifs[0].body) == 1
+                   and _src(ifs[0].body[0]) == f"{adder}({v})" and not ifs[0].orelse,
+                   "compile: `if needsSampling(value): addDep(value)` changed")
+            roles += got
+        elif isinstance(st, ast.If) and _src(st.test) in ("'CanSee' in globalBindings", '"CanSee" in globalBindings'):
+            expect(len(st.body) == 1 and isinstance(st.body[0], ast.For) and _src(st.body[0].iter) == "scenario.objects"
+                   and isinstance(st.body[0].target, ast.Name) and len(st.body[0].body) == 1
+                   and _src(st.body[0].body[0]) == f"{adder}({st.body[0].target.id})" and not st.orelse,
+                   "compile: the CanSee branch changed")
+            roles.append("objectsIfCanSee")
+        elif isinstance(st, ast.If) and _src(st.test) == "ego is not None":
+            cs = calls_adder(st)
+            expect(len(cs) == 1 and _src(cs[0]) == f"{adder}(ego)" and not st.orelse, "compile: the ego branch changed")
+            roles.append("ego")
+        else:
+            raise TemplateMismatch(f"compile: a dependency is added in an unexpected place: `{_src(st)[:80]}`")
+    expect(sorted(roles) == ["bindings", "cells", "ego", "objectsIfCanSee"],
+           f"compile: dependency sources are {roles}, expected each of bindings/cells/objectsIfCanSee/ego once")
+    return roles
 
 
 # --------------------------------------------------------------------------- 2./3. _generateInner
@@ -454,14 +608,14 @@ def checker_shape():
 
 # --------------------------------------------------------------------------- output
 def extract():
-    sites, terms = order_sites()
-    local, _ = order_sites(local=True)
+    sites, terms, segs = order_sites()
+    local, _, _ = order_sites(local=True)
     b, le = bracket()
     priv = private_sites()
     checker_shape()
     roots = [n for n, o, _ in local if not o]
-    return {"sites": sites, "roots": roots, "why": {n: w for n, o, w in local if not o},
-            "terms": terms, "bracket": b, "le": le, "private": priv}
+    return {"sites": sites, "local": local, "roots": roots, "why": {n: w for n, o, w in local if not o},
+            "terms": terms, "segments": segs, "sources": compile_sources(), "bracket": b, "le": le, "private": priv}
 
 
 def _b(x):
@@ -472,15 +626,17 @@ def _s(x):
     return '"' + x.replace("\\", "\\\\").replace('"', '\\"') + '"'
 
 
-def to_lean(d, allowed=()):
+def to_lean(d):
     sites = ",\n    ".join(f"({_s(n)}, {_b(o)})" for n, o, _ in d["sites"])
+    local = ",\n    ".join(f"({_s(n)}, {_b(o)})" for n, o, _ in d["local"])
     why = "\n".join(f"--   {n}: {w}" for n, w in d["why"].items())
     priv = ",\n    ".join(f"({_s(n)}, {_b(o)})" for n, o, _ in d["private"])
     terms = ", ".join(_s(t) for t in d["terms"])
     roots = ", ".join(_s(t) for t in d["roots"])
-    allowed = ", ".join(_s(t) for t in allowed)
+    segs = ", ".join("." + r for r in d["segments"])
+    srcs = ", ".join("." + r for r in d["sources"])
     b = d["bracket"]
-    return f"""import ScenicModel.Model.Determinism
+    return f"""import ScenicModel.Model.DepOrder
 namespace Scenic.Gen
 open Scenic.Det
 
@@ -489,15 +645,36 @@ open Scenic.Det
 def detOrderSites : List (String × Bool) :=
   [ {sites} ]
 
+/-- the same sites judged on their own (their inputs assumed ordered): the kind of each container -/
+def detSiteKinds : List (String × Bool) :=
+  [ {local} ]
+
 /-- sites that are themselves iterated in an address-dependent order (root causes) -/
 def detUnorderedRoots : List String := [{roots}]
 {why}
 
-/-- root causes recorded as known findings (KNOWN_FINDINGS.json / findings.d, keys `unordered-site:<site>`) -/
-def detKnownUnorderedRoots : List String := [{allowed}]
+def detSiteOrdered (name : String) : Bool := (detSiteKinds.lookup name).getD false
 
-/-- the segments concatenated into `Scenario.dependencies`, in order -/
+/-- the container kinds as the model of the construction of `Scenario.dependencies` takes them -/
+def detKinds : Kinds :=
+  {{ bindings := detSiteOrdered "requirement.getNameBindings.globals" && detSiteOrdered "requirement.init.bindings",
+    closures := detSiteOrdered "requirement.getNameBindings.closures",
+    cells := detSiteOrdered "requirement.init.cells",
+    compileDeps := detSiteOrdered "requirement.compile.deps",
+    dynDeps := detSiteOrdered "dynamic.requirementDeps",
+    passed := detSiteOrdered "dynamic.toScenario",
+    instances := detSiteOrdered "scenario.instances",
+    paramDeps := detSiteOrdered "scenario.paramDeps",
+    behaviorDeps := detSiteOrdered "scenario.behaviorDeps",
+    dependencies := detSiteOrdered "scenario.dependencies",
+    size := 8 }}
+
+/-- the segments concatenated into `Scenario.dependencies`, in source order: as written, and by role -/
 def detDependencyTerms : List String := [{terms}]
+def detDependencySegs : List Seg := [{segs}]
+
+/-- where `PendingRequirement.compile` adds dependencies, in source order -/
+def detCompileSources : List DepSrc := [{srcs}]
 
 /-- generator states saved before / restored after `self.checker.checkRequirements(sample)`
     in `Scenario._generateInner` -/
